@@ -431,7 +431,7 @@ func (p *parser) parseArrayLiteral() Node {
 	tt := p.cur.TokenType()
 	for tt != lexer.RBRACKET && tt != lexer.EOF {
 		n := p.parseExprWSS()
-		if n == nil {
+		if n == nil || !p.assertHasValue(n, "array element") {
 			return nil // previous error
 		}
 		elements = append(elements, n)
@@ -459,6 +459,29 @@ func (p *parser) parseArrayLiteral() Node {
 	}
 	arrayLit.Elements = elements
 	return wrapAny(arrayLit, arrayLit.T)
+}
+
+// assertHasValue reports an error if n, an element of a composite
+// literal, has no value, such as the call of a function without return
+// value.
+func (p *parser) assertHasValue(n Node, use string) bool {
+	if n.Type() != NONE_TYPE {
+		return true
+	}
+	msg := "invalid " + use + ", it has no value"
+	inner := n
+	for {
+		g, ok := inner.(*GroupExpression)
+		if !ok {
+			break
+		}
+		inner = g.Expr
+	}
+	if fc, ok := inner.(*FuncCall); ok {
+		msg = fmt.Sprintf("cannot use %q as %s, it has no return value", fc.Name, use)
+	}
+	p.appendErrorForToken(msg, n.Token())
+	return false
 }
 
 func (p *parser) parseExprList() []Node {
@@ -532,7 +555,7 @@ func (p *parser) parseMapPairs(mapLit *MapLiteral) bool {
 		p.advance() // advance past COLON
 
 		n := p.parseExprWSS()
-		if n == nil {
+		if n == nil || !p.assertHasValue(n, "map value") {
 			return false // previous error
 		}
 		mapLit.Pairs[key] = n
